@@ -107,7 +107,7 @@ def check_single(case, ev):
         try:
             with open(os.path.join(d, "in.cfg"), "w", encoding="utf-8", newline="") as fh:
                 fh.write(line + "\n")
-            _, exc = guarded(anonymize_files, os.path.join(d, "in.cfg"), os.path.join(d, "out.cfg"), True, False, salt=case["salt"])
+            _, exc = guarded(anonymize_files, os.path.join(d, "in.cfg"), os.path.join(d, "out.cfg"), True, False, salt=case["salt"], sensitive_words=case.get("words") or None)
             if exc is not None:
                 return core.exc_finding(exc, case, "run/")
             try:
@@ -117,7 +117,7 @@ def check_single(case, ev):
         finally:
             shutil.rmtree(d, ignore_errors=True)
     else:
-        fa, exc = guarded(lambda: FileAnonymizer(anon_pwd=True, anon_ip=False, salt=case["salt"]))
+        fa, exc = guarded(lambda: FileAnonymizer(anon_pwd=True, anon_ip=False, salt=case["salt"], sensitive_words=case.get("words") or None))
         if exc is not None:
             return core.exc_finding(exc, case, "ctor/")
         out, exc = guarded(core.run_io, fa, line + "\n")
@@ -127,7 +127,7 @@ def check_single(case, ev):
     classes = S.classify(v) if c != "text" else {"text"}
     amb = len(classes - {"hex"} if "type7" in classes and c == "type7" else classes) > 1
     enc = tuple(case["enc"]) != ("", "") and form.enclose
-    ev.case(case, (c != "text" and not amb) or enc, ["class-" + c, "form-" + form.id, "via-" + case.get("via", "io")] + (["non-ascii-context"] if case.get("context") else []) + (["enclosed"] if enc else []) + (["ambiguous"] if amb else []))
+    ev.case(case, (c != "text" and not amb) or enc, ["class-" + c, "form-" + form.id, "via-" + case.get("via", "io")] + (["non-ascii-context"] if case.get("context") else []) + (["sensitive-word-inside-the-secret"] if case.get("words") else []) + (["enclosed"] if enc else []) + (["ambiguous"] if amb else []))
     lead_ws = line[: len(line) - len(line.lstrip())]
     tail_ws = line[len(line.rstrip()) :]
     if not out.startswith(lead_ws) or not out.endswith(tail_ws) or out[len(lead_ws) : len(out) - len(tail_ws) or None].strip() != out.strip():
@@ -220,7 +220,20 @@ def _case(draw):
         # long values (up to 64 characters)
         extra = draw(S.chars({"text": S.NONHEX_LETTERS, "hex": "0123456789abcdef", "numeric": "0123456789"}[c], 20, 48))
         v = v + extra
+    words = []
+    if draw(st.integers(0, 2)) == 0:
+        # sensitive words given as well (-p -w): a listed word that happens to occur inside the secret.
+        # Words as in C10's domain (start and end with a letter outside a-f, no run of six hex digits), five
+        # characters or more so that no pseudonym spells one by chance, and not part of 'netconanRemoved'
+        import re as _re
+
+        cand = [v[i : i + n] for n in (5, 6) for i in range(0, max(0, len(v) - n + 1))]
+        cand = [w for w in cand if w[0].lower() in "ghijklmnopqrstuvwxyz" and w[-1].lower() in "ghijklmnopqrstuvwxyz" and w.isalnum() and w.isascii() and not _re.search(r"[0-9a-fA-F]{6}", w) and w.lower() not in "netconanremoved"]
+        if cand:
+            w = draw(st.sampled_from(cand))
+            words = [draw(st.sampled_from([w, w.lower(), w.upper()]))] + (["Kwyjibo"] if draw(st.booleans()) else [])
     return {
+        "words": words,
         "form": form.id,
         "head": draw(st.integers(0, len(form.heads) - 1)),
         "trail": draw(st.integers(0, len(form.trails) - 1)),
